@@ -283,4 +283,80 @@ def widthOkList : List Cond → Bool
   | c :: cs => c.widthOk && widthOkList cs
 end
 
+mutual
+/-- The two decoders whose input is already tree shaped — `condFromStackItem` (:668-770, used by
+WitnessRule.FromStackItem) and `unmarshalConditionJSON` (:772-858) — apply the same limits while they
+descend: `admit c maxDepth` tells whether they accept the tree `c`. -/
+def admit : Cond → Nat → Bool
+  | _, 0 => false                                 -- "too many nesting levels"
+  | .not c, d+1 => admit c d
+  | .and cs, d+1 => cs.length != 0 && cs.length ≤ maxSubitems && admitAll cs d
+  | .or cs, d+1 => cs.length != 0 && cs.length ≤ maxSubitems && admitAll cs d
+  | .boolean _, _+1 => true
+  | .scriptHash _, _+1 => true
+  | .group _, _+1 => true
+  | .calledByEntry, _+1 => true
+  | .calledByContract _, _+1 => true
+  | .calledByGroup _, _+1 => true
+def admitAll : List Cond → Nat → Bool
+  | [], _ => true
+  | c :: cs, d => admit c d && admitAll cs d
+end
+
+/-- the environment with another contract table (same VM state). -/
+def Env.withContracts (e : Env) (k : Hash → Option (List Key)) : Env := { e with contracts := k }
+
+/-! ### Binary decoder of signers (signer.go:50-72, witness_rule.go:45-52, io/binaryReader.go:103-149) -/
+
+
+/-- decode `n` items with `dec`, failing on the first failure. -/
+def decodeMany {α : Type} (dec : Bytes → Option (α × Bytes)) : Nat → Bytes → Option (List α × Bytes)
+  | 0, bs => some ([], bs)
+  | n+1, bs => match dec bs with
+    | none => none
+    | some (x, r) => match decodeMany dec n r with
+      | none => none
+      | some (xs, r') => some (x :: xs, r')
+
+/-- io.BinReader.ReadArray with a maximum (binaryReader.go:103-149): a var-uint count, then the elements. -/
+def readArrayMax {α : Type} (dec : Bytes → Option (α × Bytes)) (max : Nat) (bs : Bytes) : Option (List α × Bytes) :=
+  match Wire.readVarUint bs with
+  | none => none
+  | some (l, r) => if l > max then none else decodeMany dec l r
+
+/-- WitnessRule.DecodeBinary (witness_rule.go:45-52). -/
+def decodeRule (decKey : Bytes → Option (Key × Bytes)) (bs : Bytes) : Option (Rule × Bytes) :=
+  match bs with
+  | [] => none
+  | a :: rest =>
+    if a.toNat != 0 && a.toNat != actAllow then none        -- "unknown witness rule action"
+    else match decodeBinaryCondition decKey rest with
+      | none => none
+      | some (c, r) => some ({ action := a.toNat, cond := c }, r)
+
+/-- the scope byte checks of Signer.DecodeBinary (signer.go:53-60): no unknown bit, Global only alone. -/
+def validScopes (s : Nat) : Bool :=
+  (s &&& 0x0E) == 0 && !(hasScope s scGlobal && s != scGlobal)
+
+/-- Signer.DecodeBinary (signer.go:50-72). -/
+def decodeSigner (decKey : Bytes → Option (Key × Bytes)) (bs : Bytes) : Option (Signer × Bytes) :=
+  match readHash bs with
+  | none => none
+  | some (acc, r0) => match r0 with
+    | [] => none
+    | sb :: r1 =>
+      let sc := sb.toNat
+      if !validScopes sc then none
+      else
+        match (if hasScope sc scCustomContracts then readArrayMax readHash maxSubitems r1 else some ([], r1)) with
+        | none => none
+        | some (cs, r2) =>
+          match (if hasScope sc scCustomGroups then readArrayMax decKey maxSubitems r2 else some ([], r2)) with
+          | none => none
+          | some (gs, r3) =>
+            match (if hasScope sc scRules then readArrayMax (decodeRule decKey) maxSubitems r3 else some ([], r3)) with
+            | none => none
+            | some (rs, r4) =>
+              some ({ account := acc, scopes := sc, allowedContracts := cs, allowedGroups := gs, rules := rs }, r4)
+
 end NeoModel.Witness
